@@ -136,6 +136,27 @@ def one_run(cfg, path, mode, fault=None, observer=None):
     return res, probe, a
 
 
+def two_runs_one_context(big_cfg, cfg, path, fault):
+    """One Aspire instance, one auto_checkpoint context: a complete bigger run, then the interrupted run."""
+    from .. import smcrun
+
+    t = Target.from_desc(cfg["target"])
+    probe = Probe(t)
+    _, a, probe = recorded.build(cfg, probe=probe)
+    with a.auto_checkpoint(path, every=cfg["ckpt_every"]):
+        r1 = smcrun.run(a, big_cfg["n"], big_cfg["sampler"], recorded.sample_kwargs(big_cfg), max_calls=5000)
+        if r1.exc is not None:
+            raise r1.exc
+        n_before = len(DUMPS)
+        if fault[0] == "L":
+            probe.fault_like_at = probe.n_like_calls + fault[1]
+        else:
+            probe.fault_prior_at = probe.n_prior_calls + fault[1]
+        res = smcrun.run(a, cfg["n"], cfg["sampler"], recorded.sample_kwargs(cfg), max_calls=5000)
+    res.n_before_second = n_before
+    return res, probe, a
+
+
 def faults_case(case, counters, viol, nontrivial):
     from aspire import Aspire
 
@@ -188,13 +209,19 @@ def faults_case(case, counters, viol, nontrivial):
             path = tmpfile("f.h5")
             try:
                 del DUMPS[:]
-                if prepopulate:
+                same_ctx = prepopulate and mode == "auto" and (idx % 2 == 0)
+                if prepopulate and not same_ctx:
                     rb, _, _ = one_run(big_cfg, path, mode)
                     if rb.exc is not None:
                         raise rb.exc
                 n_before = len(DUMPS)
                 counters["faults_injected"] += 1
-                res, probe, a = one_run(cfg, path, mode, fault=(kind, idx))
+                if same_ctx:
+                    counters["two_runs_in_one_context"] += 1
+                    res, probe, a = two_runs_one_context(big_cfg, cfg, path, (kind, idx))
+                    n_before = res.n_before_second
+                else:
+                    res, probe, a = one_run(cfg, path, mode, fault=(kind, idx))
                 if res.exc is None:
                     viol.append({"mech": "C12/fault-not-reached", "detail": f"{where}: {kind} call {idx} of {total}"})
                     continue
@@ -207,6 +234,20 @@ def faults_case(case, counters, viol, nontrivial):
                 if latest is None and earlier and st["state"] is not None:
                     # the interrupted run wrote nothing yet: a checkpoint that is still there must be the earlier run's last one, intact
                     latest = earlier[-1][2]
+                    # ... and it must not pass for a checkpoint of the interrupted run: resuming would silently return the
+                    # earlier run's (finished, differently sized) population instead of continuing / restarting this one
+                    try:
+                        n_old = len(pickle.loads(st["state"])["samples"].x)
+                    except Exception:  # noqa: BLE001
+                        n_old = None
+                    if n_old is not None and n_old != cfg["n"]:
+                        viol.append(
+                            {
+                                "mech": "C12/file-holds-an-earlier-runs-checkpoint-as-current",
+                                "detail": f"{where} [fault at {kind} call {idx}/{total}]: the interrupted run ({cfg['n']} particles) has not checkpointed yet, "
+                                f"but the file offers a checkpoint with {n_old} particles from the earlier run for resumption",
+                            }
+                        )
                 counters["files_inspected_after_fault"] += 1
                 tag = f"{where} [fault at {kind} call {idx}/{total}]"
                 if not (st["config"] and st["flow"]):
